@@ -647,6 +647,17 @@ func c12Near(a, b float64) bool {
 	return a == b || math.Abs(a-b) <= 1e-9*math.Max(math.Abs(a), math.Abs(b)) || math.Abs(a-b) < 1e-300
 }
 
+// c12Cls keeps violation keys stable: how many status records, not which number
+func c12Cls(n float64) string {
+	switch n {
+	case 0:
+		return "0"
+	case 1:
+		return "1"
+	}
+	return "other"
+}
+
 func c12Norm(v string) string {
 	n, err := format.AppendValidStringValue(nil, []byte(v))
 	if err != nil {
@@ -664,14 +675,15 @@ func TestVerifC12(t *testing.T) {
 	r.Assume("the agent is created with agent.MakeAgent and never Run: buckets stay in Shard.SuperQueue where the monitor reads them; the mapping cache is empty, so plain tag values stay strings")
 	ms := c12MakeStorage(t)
 	r.SetCounter("builtin_metrics_not_receivable", int64(len(c12BuiltinNotReceivable()))) // also fills the list before the workers start
-	n := r.N(50000, 5000000)
-	workers := 8
+	n := r.N(50000, 2000000)
+	workers := r.N(8, 16)
 	const perAgent = 200
 	r.Parallel(workers, "events", func(w *verifkit.Worker) {
 		rnd := w.Rnd
 		var a *agent.Agent
 		var wk *worker
 		var before c12Snap
+		var scratch []byte // reused across events, as the receivers do
 		for i := 0; i < n/workers; i++ {
 			if i%perAgent == 0 {
 				a, wk = c12NewAgent(t, ms)
@@ -680,11 +692,15 @@ func TestVerifC12(t *testing.T) {
 			id := int32(i%perAgent + 1)
 			e := c12Gen(rnd, id, uint32(time.Now().Unix()))
 			mb := e.toTL()
-			var scratch []byte
 			var firstErr error
-			if r.Guard("C12/panic", func() any { return e.describe() }, func() {
-				wk.HandleMetrics(data_model.HandlerArgs{MetricBytes: mb, Scratch: &scratch, FirstError: &firstErr})
-			}) {
+			args := data_model.HandlerArgs{MetricBytes: mb, Scratch: &scratch, FirstError: &firstErr}
+			switch rnd.IntN(8) {
+			case 0:
+				args.Scratch = nil // the HTTP receiver calls the handler without a scratch buffer
+			case 1:
+				args.Host = "conn-host" // the TCP receiver passes the peer's host name
+			}
+			if r.Guard("C12/panic", func() any { return e.describe() }, func() { wk.HandleMetrics(args) }) {
 				a, wk = c12NewAgent(t, ms)
 				before = c12Take(a)
 				continue
@@ -755,7 +771,7 @@ func c12Judge(r *verifkit.Run, w *verifkit.Worker, e *c12Event, firstErr error, 
 		}
 		switch {
 		case errN != 1 || okN != 0:
-			bad(fmt.Sprintf("rejected-event-status-count/err=%g,ok=%g", errN, okN), "an invalid event must leave exactly one ingestion-status record naming the reason", map[string]any{"status_delta": statusDelta})
+			bad(fmt.Sprintf("rejected-event-status-count/err=%s,ok=%s", c12Cls(errN), c12Cls(okN)),"an invalid event must leave exactly one ingestion-status record naming the reason", map[string]any{"status_delta": statusDelta})
 		case !e.reasons[errReason]:
 			bad(fmt.Sprintf("rejected-event-reason/%d", errReason), fmt.Sprintf("the recorded reason %d is none of the reasons that apply to the event", errReason), map[string]any{"status_delta": statusDelta})
 		default:
@@ -772,7 +788,7 @@ func c12Judge(r *verifkit.Run, w *verifkit.Worker, e *c12Event, firstErr error, 
 	}
 	w.Count("events.valid_by_reference", 1)
 	if errN != 0 || okN != 1 {
-		bad(fmt.Sprintf("accepted-event-status/err=%g(%d),ok=%g", errN, errReason, okN), "a valid event must leave exactly one OK ingestion-status record and no error record", map[string]any{"status_delta": statusDelta})
+		bad(fmt.Sprintf("accepted-event-status/err=%s(%d),ok=%s", c12Cls(errN), errReason, c12Cls(okN)),"a valid event must leave exactly one OK ingestion-status record and no error record", map[string]any{"status_delta": statusDelta})
 		w.Case(nontrivial, "valid|"+e.shape())
 		return
 	}
@@ -898,7 +914,16 @@ func c12Judge(r *verifkit.Run, w *verifkit.Worker, e *c12Event, firstErr error, 
 		bad("accepted-event-unique-items", "an event without uniques added items to the unique sketch", got)
 	}
 	// percentile digest: when one exists its weight is the row's count
-	if ra.hasDigest {
+	denormal := eCount < 2.3e-308
+	for _, h := range e.hist {
+		if h[1] > 0 && h[1] < 2.3e-308 {
+			denormal = true
+		}
+	}
+	if denormal && (ra.hasDigest || e.metric.kind == format.MetricKindMixedPercentiles || e.metric.kind == format.MetricKindValuePercentiles) {
+		// weights below the normal float range: count/total overflows or vanishes inside the digest
+		r.NotJudged("percentile-digest-with-denormal-weights", 1)
+	} else if ra.hasDigest {
 		w.Count("rows.with_digest", 1)
 		hasP := e.metric.kind == format.MetricKindMixedPercentiles || e.metric.kind == format.MetricKindValuePercentiles
 		if !hasP {
